@@ -158,6 +158,7 @@ def run_model_and_steps(chk, prop, tier, pkey=None):
             chk.add_tlc(res, "YkConc4 config %s: full scan with node-version collection over 2-3 borders vs split / collapse / insert / remove (ScanOK, NvOK, LinOK, Quiescent, Termination under WF)" % cfg)
             if not res.ok:
                 chk.error("YkConc4 model check %s did not pass (says nothing about the code): %s" % (cfg, tlc_tail(res, 12)))
+        run_steps4(chk, prop, tier, pk, progs=STEP4_SCAN[:2] if tier == "quick" else STEP4_SCAN)
     exe = build("stepdrv", ["stepdrv.cpp"], sessions=16)
     init = {"A": "{1, 2}", "B": "{1, 2}", "C": "{1, 2}", "D": "{1}"}
     nruns = 40 if tier == "quick" else 400
@@ -297,9 +298,10 @@ def run_steps3(chk, prop, tier, pk):
 
 
 STEP4 = [("put:21,get:32,get:21", 2), ("put:21,rem:2,get:32", 2), ("put:5,rem:18,get:16", 1), ("put:34,rem:2,get:34", 2), ("put:21,rem:2,get:18", 2), ("put:1,get:2,get:17", 1)]
+STEP4_SCAN = [("put:21,scan:0,rem:2", 2), ("put:5,scan:0,rem:18", 1), ("put:34,scan:0,get:34", 2), ("put:21,scan:0,scan:0", 2)]
 
 
-def run_steps4(chk, prop, tier, pk):
+def run_steps4(chk, prop, tier, pk, progs=None):
     """S: border split under an existing parent / interior insert / interior shift-delete / collapse vs new root of YkConc4 on the real
     code (fan-out 15) under random and PCT schedules; every logged access must be the enabled model step with the same value
     (TraceConc4); LinOK, RootOpsOK and Quiescent are evaluated on every state of the accepted executions."""
@@ -309,7 +311,7 @@ def run_steps4(chk, prop, tier, pk):
     exe = build("stepdrv4", ["stepdrv4.cpp"], sessions=16)
     nruns = 12 if tier == "quick" else 120
     keys = "{" + ", ".join(str(i) for i in range(1, 36)) + "}"
-    for pi, (prog, full) in enumerate(STEP4[:3] if tier == "quick" else STEP4):
+    for pi, (prog, full) in enumerate(progs or (STEP4[:3] if tier == "quick" else STEP4)):
         out = ""
         bad = False
         for sched in ("random", "pct"):
@@ -335,13 +337,13 @@ def run_steps4(chk, prop, tier, pk):
         cfg = write_cfg(os.path.join(BUILD, "cfg", "tc4_%s_%d.cfg" % (pk, pi)), constants={"F": 15, "Keys": keys, "Threads": "{0, 1, 2}", "Prog": "<- ProgT",
                         "Init1": "{2}", "Init2": "{18}", "UNLOCK_BEFORE_PARENT": "FALSE", "NO_INS_ON_INSERT": "FALSE", "NO_INS_ON_DELETE": "FALSE",
                         "SCAN_NO_FINAL": "FALSE", "SCAN_NO_ENTRY_CHECK": "FALSE"},
-                        invariants=["LinOK", "RootOpsOK", "Quiescent"], constraint="Record")
+                        invariants=["LinOK", "ScanOK", "NvOK", "RootOpsOK", "Quiescent"], constraint="Record")
         res = tlc("TraceConc4", cfg, env={"TRACE": tr}, workers=1, timeout=600, deque=True)
         chk.add_tlc(res, "step-level conformance of split under a parent / interior insert, shift-delete / collapse vs new root, programs %s, border %d full (%d runs, %d events)" % (prog, full, 2 * nruns, len(lines)))
         if res.ok:
             chk.traces += 2 * nruns
             chk.cov["step_events_conforming"] = chk.cov.get("step_events_conforming", 0) + len(lines)
-        elif res.violated in ("LinOK", "RootOpsOK", "Quiescent"):
+        elif res.violated in ("LinOK", "ScanOK", "NvOK", "RootOpsOK", "Quiescent"):
             rp = chk.save_replay("step4_%d_%s.txt" % (pi, res.violated), tlc_tail(res, 60))
             chk.violation("step-trace-" + res.violated, "%s violated on a real execution (%s) followed step by step in YkConc4" % (res.violated, prog), rp)
         else:
